@@ -12,7 +12,8 @@
 (*               Results outside the exact domain are "und" (not claimed).  *)
 (*  Impl-shaped: (a) which sub-expressions ConstantFolding turns into a     *)
 (*               literal node (`folded`), (b) the C helper for double %     *)
-(*               (__Pyx_mod_double: fmod and a sign fix-up), (c) the C type *)
+(*               (__Pyx_mod_double: fmod and a sign fix-up; equal to the    *)
+(*               reference since the repair of KF-C09-3), (c) the C type    *)
 (*               of an unfolded `&`, `|`, `^`: unary + / - / ~ of a bool    *)
 (*               literal gives IntNode.for_int, typed C `int`, and          *)
 (*               widest_numeric_type(int, bint) is its SECOND argument when *)
@@ -127,12 +128,17 @@ FMod(x, y) == IF IsZero(y) THEN Err
               ELSE LET c == Common(x, y) R == c.X - FloorQ(x, y) * c.Y IN
                    IF R # 0 THEN MkFloat(IF R < 0 THEN 1 ELSE 0, Abs(R), c.D)
                    ELSE MkFloat(SignBit(y), 0, 0)
-\* Cython's C helper: r = fmod(a, b); r += ((r != 0) & ((r < 0) ^ (b < 0))) * b;
-\* fmod gives a zero the sign of a; adding (0 * b) keeps -0.0 only if b < 0 as well
+\* Cython's C helper __Pyx_mod_double (Utility/CMath.c, ModFloat), as of commit bc43ee563:
+\*   r = fmod(a, b); if (r != 0) { if ((r < 0) != (b < 0)) r += b; } else r = copysign(0, b);
+\* (before that commit: r += ((r != 0) & ((r < 0) ^ (b < 0))) * b, which left a zero remainder with
+\*  the sign fmod gave it, i.e. sign(a) AND sign(b): 4.0 % -2.0 was +0.0 -- known finding KF-C09-3, fixed)
 FModC(x, y) == IF IsZero(y) THEN Err
-               ELSE LET c == Common(x, y) R == c.X - FloorQ(x, y) * c.Y IN
+               ELSE LET c == Common(x, y)
+                        T == (Abs(c.X) \div Abs(c.Y)) * (IF (c.X < 0) = (c.Y < 0) THEN 1 ELSE -1)   \* truncated quotient
+                        F == c.X - T * c.Y                                                         \* fmod: sign of a
+                        R == IF F # 0 /\ ((F < 0) # (c.Y < 0)) THEN F + c.Y ELSE F IN
                     IF R # 0 THEN MkFloat(IF R < 0 THEN 1 ELSE 0, Abs(R), c.D)
-                    ELSE MkFloat(IF SignBit(x) = 1 /\ SignBit(y) = 1 THEN 1 ELSE 0, 0, 0)
+                    ELSE MkFloat(SignBit(y), 0, 0)
 
 RECURSIVE PowRep(_, _, _, _)
 \* acc * x^e by repeated multiplication (mul is FMul or integer multiplication)
